@@ -54,7 +54,7 @@ theorem no_creation_while_paused (sp : Spec) (w : World) (ev : Event)
               · split <;> rfl
               · unfold ids; rw [(checkAffected_tasks sp _ t).1]
           · split
-            · unfold ids; rw [(checkAffected_tasks sp _ t).1]
+            · rfl
             · simp [ids, setTask_ids]
       | rpcResult t ok =>
         simp only
@@ -117,7 +117,7 @@ theorem paused_stays_paused (sp : Spec) (w : World) (ev : Event) (hp : w.wf = .P
               · split <;> exact hp
               · rw [(checkAffected_tasks sp _ t).2]; exact hp
           · split
-            · rw [(checkAffected_tasks sp _ t).2]; exact hp
+            · exact hp
             · exact hp
       | rpcResult t ok =>
         simp only
